@@ -21,7 +21,7 @@ GroupVariants == <<[has |-> FALSE, gb |-> <<>>, aliases |-> <<>>],
                    \* aliases without any group-by: the normalisation is emitted all the same
                    [has |-> FALSE, gb |-> <<>>, aliases |-> <<[alias |-> al, map |-> <<(<<1, fA>>), (<<2, fX>>)>>]>>]>>
 Cond(kind, op, count, hasfield, haspct, expr) ==
-    [kind |-> kind, op |-> op, count |-> count, hasfield |-> hasfield, field |-> ff, haspct |-> haspct, pct |-> 75, expr |-> expr]
+    [kind |-> kind, op |-> op, count |-> count, hasfield |-> hasfield, field |-> ff, haspct |-> haspct, pct |-> 75, expr |-> expr, frac |-> FALSE]
 MkB(ts, ty, no, op, pi) == [tsmode |-> ts, typing |-> ty, norm |-> no, optin |-> op, pipe |-> pi]
 BAll == {MkB(ts, ty, no, op, pi) : ts \in {"map", "sec", "pass"}, ty \in BOOLEAN, no \in BOOLEAN, op \in BOOLEAN, pi \in {"none", "rename"}}
 BSeq == SetToSeq(BAll)
@@ -35,6 +35,9 @@ Corr(t, refs, gv, ts, cond, gen) ==
 CasesA == {[c |-> Corr(t, RefSets[((t + o + u) % 8) + 1], ((t + u) % 4) + 1, [count |-> Counts[((o + u) % 3) + 1], unit |-> Units[u]],
                        Cond("basic", Ops[o], Counts[((t + o) % 3) + 1], NeedsField(t), t = 7, <<>>), (t + o) % 2 = 0),
             B |-> BSeq[((t * 7 + o * 3 + u) % Len(BSeq)) + 1]] : t \in 1..8, o \in 1..6, u \in 1..7}
+\* (A') thresholds with a fractional part, for the value aggregations
+CasesF == {[c |-> Corr(t, RefSets[r], 2, [count |-> 5, unit |-> 109], [Cond("basic", Ops[o], 2, TRUE, t = 7, <<>>) EXCEPT !.frac = TRUE], FALSE),
+            B |-> BSeq[((t + o) % Len(BSeq)) + 1]] : t \in {5, 6, 7, 8}, o \in 1..6, r \in {1, 3}}
 \* (B) every backend template set x reference set x group-by variant
 CasesB == {[c |-> Corr(t, RefSets[r], gv, [count |-> 5, unit |-> 109], Cond("basic", "gte", 2, FALSE, FALSE, <<>>), gen), B |-> BSeq[b]] :
              t \in {1, 3}, r \in 1..8, gv \in 1..4, b \in 1..Len(BSeq), gen \in (IF Quick THEN {FALSE} ELSE BOOLEAN)}
@@ -49,7 +52,7 @@ RefsOf(a) == IF \E i \in 1..1 : a = CNot(CNot(CId(r1))) THEN <<1>>
              ELSE IF a = CBin("cor", CId(r4), CBin("cand", CNot(CId(r2)), CId(r1))) THEN <<4, 2, 1>> ELSE <<1, 2>>
 CasesC == {[c |-> Corr(t, RefsOf(a), 2, [count |-> 5, unit |-> 109], Cond("ext", "gte", 1, FALSE, FALSE, CPrint(a, st)), FALSE), B |-> BSeq[b]] :
              t \in {3, 4}, a \in ExtAsts, st \in {"min", "full"}, b \in {1, 7, 20, 33}}
-ASSUME LET S == SetToSeq(CasesA \cup CasesB \cup CasesC)
+ASSUME LET S == SetToSeq(CasesA \cup CasesF \cup CasesB \cup CasesC)
        IN  ndJsonSerialize(IOEnv.VERIF_OUT, [i \in 1..Len(S) |-> [id |-> i] @@ S[i]])
 Init == x = 0
 Next == UNCHANGED x
